@@ -19,13 +19,38 @@ def feats(layout='recursive', hash_='keccak_160_lsb', stone='stone5'):
 
 UNITS = {
     # name: dict(fragments, features, mem_kb (ulimit -v), threads, rlimit)
-    'core': dict(fragments=PRE + T('lemmas.rs', 'transcript.rs', 'pow.rs', 'commitment.rs', 'fri.rs', 'air.rs', 'stark.rs'),
+    'core': dict(fragments=PRE + T('lemmas.rs', 'numth.rs', 'transcript.rs', 'pow.rs', 'commitment.rs', 'fri.rs', 'air.rs', 'stark.rs'),
                  features=DEFAULT_FEATURES, threads=8),
 }
 
-# property -> units per tier
+# property -> units per tier, claim text for the manifest
 PROPS = {
-    'C08': dict(quick=['core'], thorough=['core']),
-    'C09': dict(quick=['core'], thorough=['core']),
-    'C11': dict(quick=['core'], thorough=['core']),
+    'C08': dict(quick=['core'], thorough=['core'],
+                claim='Every Transcript operation is proved equal to a spec of the absorb/squeeze state machine (squeeze = poseidon(digest,counter), counter+1; absorb = poseidon_many([digest+1]++msg), counter reset); protocol functions are proved to perform exactly the scripted operations in order.',
+                technique='postconditions over the transcript state machine on Transcript::*, pow commit, generate_queries',
+                note='Not decided: agreement with challenges logged by the prover (recorded data); "changes when a message changes" relies on hash injectivity (idealised).'),
+    'C09': dict(quick=['core'], thorough=['core'],
+                claim='verify_pow is proved to accept exactly when be_nat(H(H(magic||digest||n)||nonce)[0..16]) < 2^(128-n); Config::validate accepts exactly 20..=50; commit checks the pre-state digest and absorbs the nonce only on success.',
+                technique='exact (<=>) postconditions on verify_pow, pow::Config::validate, UnsentCommitment::commit',
+                note='H is an uninterpreted function of the byte string for each hash feature.'),
+    'C10': dict(quick=['core'], thorough=['core'],
+                claim='generate_queries is proved to return a strictly increasing, in-range sequence of at most n indices whose set is exactly the sampled set (a spec function of the transcript); queries_to_points maps index q to 3*w^bitreverse_k(q) and errors instead of panicking.',
+                technique='loop invariants + sort/dedup lemmas on generate_queries (verified modulo rewrite R2), queries_to_points',
+                note='Vec::sort/dedup semantics assumed (A-std). Not decided: equality with the prover-logged indices.'),
+    'C11': dict(quick=['core'], thorough=['core'],
+                claim='StarkConfig::validate (with pow, trace, vector, FRI config validation) is proved to accept exactly the configurations satisfying the integer-reading oracle config_ok written from the property statement, one labelled clause per conjunct in both directions.',
+                technique='exact (<=>) postconditions with loop invariant on fri::Config::validate, StarkConfig::validate, trace/vector/pow Config::validate',
+                note=''),
+    'C12': dict(quick=['core'], thorough=['core'],
+                claim='StarkDomains::new is proved to return sizes 2^(t+c), 2^t and generators 3^((P-1)/2^k); verified number-theory lemmas show gen(k)^(2^k)=1, gen(k)^(2^j)!=1 for j<k (order exactly 2^k) and trace_generator = eval_generator^(2^c), for all t+c<=192.',
+                technique='postcondition on StarkDomains::new + machine-checked lemmas (pow laws, 2-adic structure of P-1, compute_only for 3^(P-1), 3^((P-1)/2))',
+                note='That "h^(2^k)=1 and h^(2^j)!=1 for all j<k" characterises order 2^k is textbook and stated, not mechanised.'),
 }
+
+NOT_APPLICABLE = {
+    'C03': 'quantifies over outputs of an external prover (25 shipped Stone proofs) and over compile-time builds; only running each proof through each build decides it, which is a test matrix, not a contract (DESIGN.md C03)',
+}
+for _i in range(1, 20):
+    _p = 'C%02d' % _i
+    if _p not in PROPS and _p not in NOT_APPLICABLE:
+        NOT_APPLICABLE[_p] = 'check not built yet in this session (planned in DESIGN.md section 4); not claimed'
